@@ -213,6 +213,8 @@ func checkC10(c *Check) {
 	}
 	delete(c.Expects, c.ID+".5/env-mutex")
 	c.Expect("6/serialised", 10)
+	// the parameters acted upon are those of this request (no field inherited from the previous message)
+	checkFreshDecode(c, "7/request-is-fresh")
 }
 
 func lastCall(trace []string) string {
